@@ -1,6 +1,6 @@
 From Coq Require Import Extraction ExtrOcamlBasic QArith Qabs Qreduction ZArith NArith.
 From SF Require Import Base.GeomAST Base.QKernel Base.Planar Model.SetOpSpec Model.OverlayComplex Model.OverlayRings Model.OverlayRenode.
-From SF Require Import Model.OverlayFixup.
+From SF Require Import Model.OverlayFixup Model.OverlayPipeline.
 Extraction Language OCaml.
 Extraction "model.ml"
   geom_of_bits xy_finite is_empty
@@ -19,4 +19,6 @@ Extraction "model.ml"
   Qplus Qminus Qmult Qdiv Qopp Qabs.Qabs Qred Qle_bool Qeq_bool inject_Z Qcompare
   Z.add Z.mul Z.sub Z.of_N Z.opp Z.pow_pos
   fixVertices assignFaces faces_of populateInSetLabels fixup pre_wf pre_dirs_ok pre_src_sym pre_srcface_le
-  radialLess sorted_incidents incidents l_next l_prev fo_cycles fo_incident fo_in.
+  radialLess sorted_incidents incidents l_next l_prev fo_cycles fo_incident fo_in
+  overlay_dcel_of_skel overlay_dcel_full extract_geometry overlay_result face_witness face_label_ok face_labels_bad
+  keys_consistent chain_shape_ok chains_wf pipeline_chains pipeline_chains_of_skel ov_vertices all_pieces seq_less.
